@@ -255,6 +255,29 @@ func translateDecoderReset(repo string) (map[string]string, error) {
 		return nil, fmt.Errorf("StreamEncoder.SequenceCompleted / WriteMessage not found")
 	}
 	_, scc := assignedPaths(sc.Body)
+	// SequenceCompleted refuses to complete a sequence no message was written for: a top-level `if !e.fileHeaderWritten { return <non-nil> }`
+	// ahead of everything that writes (encodeCRC, updateFileHeader)
+	rejectsEmpty := false
+	for _, st := range sc.Body.List {
+		ifs, ok := st.(*ast.IfStmt)
+		if !ok || ifs.Init != nil || ifs.Else != nil {
+			break
+		}
+		un, ok := ifs.Cond.(*ast.UnaryExpr)
+		if !ok || un.Op != token.NOT {
+			break
+		}
+		sel, ok := un.X.(*ast.SelectorExpr)
+		if !ok || sel.Sel.Name != "fileHeaderWritten" || len(ifs.Body.List) == 0 {
+			break
+		}
+		if rs, ok := ifs.Body.List[len(ifs.Body.List)-1].(*ast.ReturnStmt); ok && len(rs.Results) == 1 {
+			if id, isId := rs.Results[0].(*ast.Ident); !isId || id.Name != "nil" {
+				rejectsEmpty = true
+			}
+		}
+		break
+	}
 	_, wmc := assignedPaths(wm.Body)
 	for _, must := range []string{"e.enc.protocolValidator.ValidateMessage", "e.enc.options.messageValidator.Validate", "e.enc.encodeMessage"} {
 		if !wmc[must] {
@@ -271,6 +294,7 @@ func translateDecoderReset(repo string) (map[string]string, error) {
 	fmt.Fprintf(&sb, "Definition enc_reset_tsref : bool := %s.\n", b(era["e.timestampReference"]))
 	fmt.Fprintf(&sb, "Definition enc_reset_lastts : bool := %s.\n", b(era["e.lastTimestamp"]))
 	fmt.Fprintf(&sb, "Definition stream_completed_resets : bool := %s.\n", b(scc["e.enc.reset"]))
+	fmt.Fprintf(&sb, "Definition stream_completed_rejects_empty : bool := %s.\n", b(rejectsEmpty))
 	fmt.Fprintf(&sb, "Definition reset_clears_definitions : bool := %s.\n", b(clearsDefs))
 	fmt.Fprintf(&sb, "Definition reset_clears_developer_tables : bool := %s.\n", b(clearsDev))
 	fmt.Fprintf(&sb, "Definition integrity_drops_buffer : bool := %s.\n", b(dropsBuf))
